@@ -233,6 +233,9 @@ func (m *lMachine) c19Apply(i int, op lOp) {
 			if pair, ok := m.k.GetPair(c.Ctx, app, lp.ID); ok {
 				from := c.Accs[op.Actor].Addr
 				coin := sdk.NewCoin(params.SwapFeeDistrDenom, mustInt(op.A))
+				if op.B != "" {
+					coin.Denom = op.B // another token: the 150-block conversion has to swap it into the distribution token
+				}
 				if c.Bal(from, coin.Denom).GTE(coin.Amount) {
 					if err := c.App.BankKeeper.SendCoins(c.Ctx, from, pair.GetSwapFeeCollectorAddress(), sdk.NewCoins(coin)); err == nil {
 						m.ok["feegift"]++
